@@ -24,6 +24,15 @@ def run(tier, seed):
     items.append((fn_tds.do_switch('C12'), None, fn_tds.replay_do_switch))
     run_contracts(pack, items)
     bounded(pack, tier)
+    from contracts import bounded_islands_real as BIR
+    rname = 'C12/andes/system.py:System.connectivity/bounded:islands-of-a-loaded-case-match-the-branch-graph'
+    r = native_guard(pack, rname, BIR.run)
+    if r is not None:
+        nr, badr = r
+        pack.bounded.append({'function': 'System.connectivity on a loaded case', 'kind': 'bounded native: ieee14_full + a double circuit, %d outage patterns' % nr,
+                             'counted_as_proved': False})
+        if badr:
+            pack.violation(rname, {'bounded': True, 'inputs': badr, 'native_cmd': 'contracts/bounded_islands_real.py'})
     return pack.finish()
 
 
